@@ -53,7 +53,9 @@ class Model:
     def exact(self) -> Analyzer:
         if self.AX is None:
             t = time.time()
-            self.AX = Analyzer(self.prog, exact=True).run()
+            from .exact_entries import entries
+
+            self.AX = Analyzer(self.prog, exact=True).run(entries(self.prog))
             self.build_s["exact"] = round(time.time() - t, 2)
         return self.AX
 
